@@ -70,3 +70,26 @@ impl<K, V> DrainFilterInner<'_, K, V> {
     }
 }
 } // verus!
+verus! {
+// ---- handle well-formedness (C12): an occupied handle designates a live element of the map it borrows
+impl<'a, K, V, S> OccupiedEntry<'a, K, V, S> {
+    pub open spec fn oe_wf(&self) -> bool { self.table.table.wf() && self.table.table.valid_bucket(self.elem) }
+}
+impl<'a, K, V, S> VacantEntry<'a, K, V, S> {
+    pub open spec fn ve_wf(&self) -> bool { self.table.table.wf() }
+}
+impl<'a, K, V, S> Entry<'a, K, V, S> {
+    pub open spec fn e_wf(&self) -> bool { match *self { Entry::Occupied(o) => o.oe_wf(), Entry::Vacant(v) => v.ve_wf() } }
+    pub open spec fn e_total(&self) -> nat { match *self { Entry::Occupied(o) => o.table.table.total(), Entry::Vacant(v) => v.table.table.total() } }
+}
+impl<'a, K, V, S> RawOccupiedEntryMut<'a, K, V, S> {
+    pub open spec fn roe_wf(&self) -> bool { self.table.wf() && self.table.valid_bucket(self.elem) }
+}
+impl<'a, K, V, S> RawVacantEntryMut<'a, K, V, S> {
+    pub open spec fn rve_wf(&self) -> bool { self.table.wf() }
+}
+impl<'a, K, V, S> RawEntryMut<'a, K, V, S> {
+    pub open spec fn re_wf(&self) -> bool { match *self { RawEntryMut::Occupied(o) => o.roe_wf(), RawEntryMut::Vacant(v) => v.rve_wf() } }
+    pub open spec fn re_total(&self) -> nat { match *self { RawEntryMut::Occupied(o) => o.table.total(), RawEntryMut::Vacant(v) => v.table.total() } }
+}
+} // verus!
